@@ -85,6 +85,18 @@ class Run:
             c[1] += 1
         return bool(ok)
 
+    def relabel(self, old, new):
+        """re-file the obligations recorded under rule id `old` as `new` (a shared sub-rule reported under the id of the
+        property that is being checked)."""
+        for o in self.obligations:
+            if o['rule'] == old:
+                o['rule'] = new
+        c = self.rule_counts.pop(old, None)
+        if c:
+            c2 = self.rule_counts.setdefault(new, [0, 0])
+            c2[0] += c[0]
+            c2[1] += c[1]
+
     def floor(self, rule, n):
         """Require at least n instances of `rule` (checked in finish)."""
         self.floors[rule] = max(self.floors.get(rule, 0), n)
